@@ -376,6 +376,32 @@ func knownNonNil(v ssa.Value, b *ssa.BasicBlock) bool {
 	return false
 }
 
+// edgeNonNil: the edge pred->succ is the non-nil edge of a test of v in pred.
+func edgeNonNil(v ssa.Value, pred, succ *ssa.BasicBlock) bool {
+	ifi, ok := pred.Instrs[len(pred.Instrs)-1].(*ssa.If)
+	if !ok {
+		return false
+	}
+	bo, ok := Resolve(ifi.Cond).(*ssa.BinOp)
+	if !ok {
+		return false
+	}
+	x, y := Resolve(bo.X), Resolve(bo.Y)
+	if IsNilConst(x) {
+		x, y = y, x
+	}
+	if !IsNilConst(y) || !sameValue(x, Resolve(v)) {
+		return false
+	}
+	switch bo.Op {
+	case token.NEQ:
+		return pred.Succs[0] == succ && pred.Succs[1] != succ
+	case token.EQL:
+		return pred.Succs[1] == succ && pred.Succs[0] != succ
+	}
+	return false
+}
+
 // sameValue: identical SSA value, or loads of the same local/field address with
 // the same canonical form (go/ssa does not CSE loads).
 func sameValue(a, b ssa.Value) bool {
@@ -463,6 +489,9 @@ func valMayBeGood(v ssa.Value, kind byte, at *ssa.BasicBlock, r *CallRes, reache
 		for i, e := range phi.Edges {
 			pred := phi.Block().Preds[i]
 			if reached != nil && !reached[pred] {
+				continue
+			}
+			if kind == 'e' && edgeNonNil(e, pred, phi.Block()) {
 				continue
 			}
 			if valMayBeGood(e, kind, pred, r, reached, depth+1) {
